@@ -38,6 +38,8 @@ pub fn part_c01(tier: Tier) -> Part {
         remove_by_num: true,
         bp_only_before_start: false,
         continue_after_start: true,
+        watches: 0,
+        terminals: false,
         wall: wall_cap(tier, 50, 2400),
     };
     explore_all(tier, &cfg, 3, &mut part);
@@ -56,6 +58,8 @@ pub fn part_c02(tier: Tier) -> Part {
         remove_by_num: false,
         bp_only_before_start: false,
         continue_after_start: true,
+        watches: 0,
+        terminals: false,
         wall: wall_cap(tier, 50, 2400),
     };
     explore_all(tier, &cfg, 2, &mut part);
@@ -74,6 +78,8 @@ pub fn part_c03(tier: Tier) -> Part {
         remove_by_num: false,
         bp_only_before_start: true,
         continue_after_start: true,
+        watches: 0,
+        terminals: false,
         wall: wall_cap(tier, 50, 3000),
     };
     explore_all_with(tier, &cfg, &mut part, |p| {
@@ -82,6 +88,95 @@ pub fn part_c03(tier: Tier) -> Part {
         c.extend(candidates(p, 4).into_iter().filter(|c| matches!(c, Cand::Line(_))).take(1));
         c
     });
+    part
+}
+
+pub fn part_c11(tier: Tier) -> Part {
+    use crate::corpus::Stmt;
+    let mut part = Part::new("e2e-lifecycle");
+    let cfg = ExploreCfg {
+        prop: "C11",
+        depth: if tier == Tier::Quick { 6 } else { 8 },
+        oracles: oracles_for("C11"),
+        steps: tier == Tier::Thorough,
+        restart: true,
+        failing: false,
+        remove_by_num: false,
+        bp_only_before_start: true,
+        continue_after_start: true,
+        watches: 1,
+        terminals: true,
+        wall: wall_cap(tier, 50, 3000),
+    };
+    // exit codes 0..199 come from the computed value; the sleep keeps a released process alive
+    // long enough to be inspected
+    let bodies = match tier {
+        Tier::Quick => vec![vec![Stmt::Assign, Stmt::Sleep(60), Stmt::CallF]],
+        Tier::Thorough => vec![vec![Stmt::Assign, Stmt::Sleep(60), Stmt::CallF], vec![Stmt::While(2), Stmt::Sleep(60), Stmt::Rec(2)], vec![Stmt::Raise(10), Stmt::Sleep(60)]],
+    };
+    let progs = match corpus::build_many(&bodies, &[Config::default_cfg()]).and_then(prepare) {
+        Ok(p) => p,
+        Err(e) => {
+            part.violate("C11:machinery:corpus", e, json!({}));
+            part.exhaustive = false;
+            return part;
+        }
+    };
+    part.bounds = json!({"programs": progs.len(), "depth": cfg.depth, "alphabet": "breakpoint add/remove before start, start/continue, restart, watch+/watch- on a global, then the terminals drop and detach from every state"});
+    part.rule = "explicit-state exploration of command histories ending in drop / detach / restart at every kind of stop (not started, breakpoint, exited, after restart); oracles: after drop no /proc/<pid> remains (not even a zombie); after detach the process is not stopped, an independent PTRACE_SEIZE finds the text equal to the ELF and no enabled debug-register slot, and the released process runs to the native output and exit code; after restart the breakpoints hit again at the reference positions; reported exit code = native".into();
+    let deadline = Instant::now() + cfg.wall;
+    for p in &progs {
+        let mut cands = vec![];
+        for mark in ["presleep", "callf", "body1", "assign"] {
+            if let Some(l) = p.line_of(mark) {
+                if !p.stmt_addrs(l).is_empty() && cands.len() < 2 {
+                    cands.push(Cand::Line(l));
+                }
+            }
+        }
+        explore_program(p, &cands, &cfg, &mut part, deadline);
+    }
+    part.traces_validated = part.transitions;
+    part
+}
+
+pub fn part_c14_regs(tier: Tier) -> Part {
+    use crate::corpus::Stmt;
+    let mut part = Part::new("e2e-debug-registers");
+    let cfg = ExploreCfg {
+        prop: "C14",
+        depth: if tier == Tier::Quick { 8 } else { 10 },
+        oracles: oracles_for("C14"),
+        steps: false,
+        restart: true,
+        failing: false,
+        remove_by_num: false,
+        bp_only_before_start: true,
+        continue_after_start: true,
+        watches: 7,
+        terminals: tier == Tier::Thorough,
+        wall: wall_cap(tier, 50, 3000),
+    };
+    let bodies = vec![vec![Stmt::Raise(14), Stmt::Assign, Stmt::Sleep(40)]];
+    let progs = match corpus::build_many(&bodies, &[Config::default_cfg()]).and_then(prepare) {
+        Ok(p) => p,
+        Err(e) => {
+            part.violate("C14:machinery:corpus", e, json!({}));
+            part.exhaustive = false;
+            return part;
+        }
+    };
+    part.bounds = json!({"programs": progs.len(), "depth": cfg.depth, "watch_candidates": "6 locations on two globals: sizes 1/2/4/8, write and read-write, two of them on the same address", "alphabet": "one breakpoint before start, start/continue, restart, watch+/watch- (removal by number or by address)"});
+    part.rule = "explicit-state exploration over the active watchpoint set: after every command u_debugreg[0..7] of every thread is read with the harness's own PTRACE_PEEKUSER: each active watchpoint occupies exactly one locally enabled slot with its address, length and condition, no other enable bit is set, a fifth watchpoint or a second one on the same address is refused without side effects, freed slots are reused, the set is still encoded after restart, and watchpoint_list() agrees".into();
+    let deadline = Instant::now() + cfg.wall;
+    for p in &progs {
+        let mut cands = vec![];
+        if let Some(l) = p.line_of("assign") {
+            cands.push(Cand::Line(l));
+        }
+        explore_program(p, &cands, &cfg, &mut part, deadline);
+    }
+    part.traces_validated = part.transitions;
     part
 }
 
@@ -98,6 +193,8 @@ pub fn part_c10(tier: Tier) -> Part {
         remove_by_num: false,
         bp_only_before_start: true,
         continue_after_start: true,
+        watches: 0,
+        terminals: false,
         wall: wall_cap(tier, 50, 3000),
     };
     let bodies = vec![
@@ -144,6 +241,8 @@ pub fn part_c05(tier: Tier) -> Part {
         remove_by_num: false,
         bp_only_before_start: true,
         continue_after_start: true,
+        watches: 0,
+        terminals: false,
         wall: wall_cap(tier, 50, 3000),
     };
     explore_all_with(tier, &cfg, &mut part, |p| candidates(p, 4).into_iter().filter(|c| !matches!(c, Cand::Line(_))).take(2).collect());
